@@ -668,8 +668,13 @@ class Rewriter:
         b = self.sub('R6:expect-std', r'\bopt_expect\(', 'opt_expect_std(hs, ', b)
         b = self.map_calls(b, r'\bself\.get_unchecked', lambda m_, a: 'self.get_unchecked_ptr(%s)' % a[0], 'R22:get_unchecked')
         # destructor of a whole slice
+        # (a raw slice pointer bound from the vector's own slice -- `let X: *mut [T] = self.as_mut_slice();` -- is that slice; dropping it in one go while the
+        # vector is still in use carries the C16 obligation that the length no longer covers those elements)
+        b = self.sub('R22:raw-slice', r'\blet (\w+): \*mut \[T\] = self\.as_(?:mut_)?slice\(\);', r'let \1 = self.as_slice();', b)
         def _ds(m_, a):
             mm = re.match(r'^ptr::slice_from_raw_parts_mut\((.*)\)$', a[0].strip(), re.S)
+            if not mm and re.match(r'^\w+$', a[0].strip()) and re.search(r'\blet %s = self\.as_slice\(\);' % a[0].strip(), b):
+                return 'cb_drop_slice_live(hs, ds, %s, self.len)' % a[0].strip()
             if not mm:
                 return None
             inner = split_args(mm.group(1))
